@@ -59,7 +59,7 @@ def cases(tier, seed):
         out.append(dict(kind='layouts', cfg=cfg))
     for i in range(60 if tier == 'quick' else 3000):
         out.append(dict(kind='drag', cfg=rng.choice(cfgs[:4] + [dict(p=3, r=1), dict(p=3)]), sseed=rng.randrange(10 ** 9),
-                        updates=rng.choice((1, 2, 3)), fork=True))
+                        updates=rng.choice((1, 2, 2, 3)), fork=True))
     return out
 
 
@@ -144,10 +144,10 @@ def _mk_mv(alg, V, rng, name, layout=None, keys=None):
     from kingdon.multivector import MultiVector
     d = alg.d
     order = list(alg.canon2bin.values())
-    layout = layout or rng.choice(['sparse', 'sparse', 'permuted', 'dense-canonical', 'dense-binary', 'array', 'array-sparse', 'empty'])
+    layout = layout or rng.choice(['sparse', 'sparse', 'permuted', 'dense-canonical', 'dense-binary', 'array', 'array-sparse', 'array2-sparse', 'empty'])
     if layout == 'empty':
         return MultiVector.fromkeysvalues(alg, (), [])
-    if layout in ('sparse', 'permuted', 'array-sparse'):
+    if layout in ('sparse', 'permuted', 'array-sparse', 'array2-sparse'):
         ks = keys or rng.sample(range(2 ** d), rng.randint(1, min(4, 2 ** d)))
         ks = sorted(ks, key=order.index)
         if layout == 'permuted':
@@ -157,12 +157,12 @@ def _mk_mv(alg, V, rng, name, layout=None, keys=None):
     else:
         ks = order
     if layout.startswith('array'):
-        n = rng.choice((2, 3))
+        shape = (rng.choice((2, 3)),) if not layout.startswith('array2') else (2, 3)
         vals = []
         for k in ks:
-            a = np.empty((n,), dtype=object)
-            for i in range(n):
-                a[i] = V.var(f'{name}_{k}_{i}')
+            a = np.empty(shape, dtype=object)
+            for ix in np.ndindex(*shape):
+                a[ix] = V.var(f'{name}_{k}_' + '_'.join(map(str, ix)))
             vals.append(a)
         return MultiVector.fromkeysvalues(alg, tuple(ks), vals)
     return MultiVector.fromkeysvalues(alg, tuple(ks), [V.var(f'{name}_{k}') for k in ks])
@@ -272,6 +272,19 @@ def _run_native(desc):
         got = list(leaves(decode(g.subjects, dict(g.key2idx))))
         want = [('element', [float(getattr(x, n)) for n in alg.canon2bin])]
         claims += _cmp_leaves(f'native-{desc["dtype"]}', got, want, f'native|{desc["dtype"]}')
+    # array-valued, ndarray-backed, one and two array axes: expanded element by element in itermv order
+    for shape in ((3,), (2, 3)):
+        ks = order[1:4] if len(order) > 3 else order
+        vals = rs.randint(-4, 5, size=(len(ks), *shape)).astype(desc['dtype'])
+        x = alg.multivector(keys=tuple(ks), values=vals)
+        g = alg.graph(x, [x])
+        got = list(leaves(decode(g.subjects, dict(g.key2idx))))
+        want = []
+        for _ in range(2):
+            for ix in np.ndindex(*shape):
+                el = x[ix]
+                want.append(('element', [float(getattr(el, n)) for n in alg.canon2bin]))
+        claims += _cmp_leaves(f'native-array-{desc["dtype"]}', got, want, f'native|{desc["dtype"]}|array')
     claims.append(Note('nontrivial', ''))
     return claims
 
@@ -281,7 +294,7 @@ def _run_layouts(desc, V):
     alg = make_alg(desc['cfg'])
     rng = random.Random(7)
     claims = []
-    for layout in ('sparse', 'permuted', 'dense-canonical', 'dense-binary', 'array', 'array-sparse', 'empty'):
+    for layout in ('sparse', 'permuted', 'dense-canonical', 'dense-binary', 'array', 'array-sparse', 'array2-sparse', 'empty'):
         x = _mk_mv(alg, V, rng, f'L{layout[:2]}{layout[-1]}', layout=layout)
         g = alg.graph(x, [x, (x,)], lambda: x)
         k2i = dict(g.key2idx)
@@ -332,10 +345,18 @@ def _run_drag(desc, V):
     fresh_slot = order.index(dragged[0].keys()[0]) if dragged and len(dragged[0].keys()) else -1
     for u in range(desc['updates']):
         payload, newvals = [], []
+        # which points the front end reports as moved in this update (at least one; the others keep their values)
+        moved = [rng.random() < 0.6 for _ in dragged]
+        if not any(moved):
+            moved[0] = True
+        if u == 1 and len(dragged) > 1:
+            moved = [True] + [False] * (len(dragged) - 1)          # an earlier point moves, the last one does not
         for pi, p in enumerate(dragged):
             full = []
             for ci, k in enumerate(order):
-                if k in p.keys() and not isinstance(p.values()[list(p.keys()).index(k)], int):
+                if k in p.keys() and not moved[pi]:
+                    full.append(p.values()[list(p.keys()).index(k)])       # unmoved point: the front end reports its current values
+                elif k in p.keys() and not isinstance(p.values()[list(p.keys()).index(k)], int):
                     cur_v = p.values()[list(p.keys()).index(k)]
                     if u == 0 and pi == 0 and ci == fresh_slot:
                         full.append(V.var(f'n{u}_{pi}_{k}'))          # one fully independent new value per scene
